@@ -9,7 +9,7 @@ from __future__ import annotations
 
 import itertools
 
-from .. import clientkit, common, vloop
+from .. import clientkit, common, vloop, wire
 from ..vloop import it_connect, it_feed, it_send, it_send_many, sp_reset, steady_state
 from nmea2000.encoder import NMEA2000Encoder
 
@@ -255,6 +255,64 @@ def _task_c(args):
     return {"runs": runs + cnt["runs"], "outcomes": len(outcomes), "nontrivial": nontriv + cnt["runs"] - cnt["redundant"], "vios": vios, "sample": sample}
 
 
+# ------------------------------------------------------------------ part D
+def pgn_of(kind, packet):
+    try:
+        if kind == "ebyte":
+            ident = int.from_bytes(packet[1:5], "big")
+        elif kind == "waveshare":
+            ident = int.from_bytes(packet[5:9], "little")
+        else:
+            ident = int(packet.decode().split()[0], 16)
+        return wire.parse_id(ident)[1]
+    except Exception:  # noqa: BLE001
+        return None
+
+
+def _task_d(args):
+    """a multi-frame send() suspended by flow control, the gateway half-closing the link (EOF on the read side) and a second
+    send() at every pair of loop boundaries: on each connection the packets of one message stay together"""
+    kind, first, second, k = args
+    skip = CONFIG_WRITES.get(kind, 0)
+    pk = clientkit.std(kind)
+    vios, outcomes = [], set()
+    stats = {"judged": 0}
+
+    def make(devs):
+        def setup(gw):
+            gw.pause_policy = lambda idx: idx >= skip
+        return dict(kind=kind, script=[it_connect, it_send(MSGS[first], name="send-first")], setup=setup,
+                    specials={"eof": vloop.sp_eof, "reset": sp_reset, "second": vloop.sp_send(MSGS[second])},
+                    deviations=devs, heal=steady_state(pk["PROBE"]))
+
+    def on_exec(devs, sess, o):
+        if not devs:
+            return
+        stats["judged"] += 1
+        bad = sorted(x for x in ("livelock", "watchdog", "busy_loop") if o.flags.get(x))
+        if bad or o.end_reason != "quiescent":
+            vios.append({"kind": "hang", "facts": {"client": kind, "part": "D"}, "signature": f"D:hang:{kind}",
+                         "detail": f"[{kind} {first} then {second}, devs={devs}] execution ended with {o.end_reason} {o.flags}",
+                         "case": {"part": "D", "client": kind, "first": first, "second": second, "deviations": [list(d) for d in devs]}})
+            return
+        for c in sess.gw.conns:
+            owners = [pgn_of(kind, w) for w in c.written]
+            owners = [x for x in owners if x in (PGN_OF[first], PGN_OF[second])]
+            runs = [x for i, x in enumerate(owners) if i == 0 or owners[i - 1] != x]
+            outcomes.add((c.cid, tuple(runs)))
+            if len(runs) > len(set(runs)):
+                vios.append({"kind": "interleaved", "facts": {"client": kind, "part": "D", "n_messages": 2, "mechanism": "fault_during_suspended_send"},
+                             "signature": f"D:interleaved:{kind}:{first}:{second}",
+                             "detail": f"[{kind} send({first}) suspended by flow control, devs={devs}] on connection {c.cid} the packets alternate between the two messages: "
+                                       f"PGN runs {runs}",
+                             "case": {"part": "D", "client": kind, "first": first, "second": second, "deviations": [list(d) for d in devs]}})
+    cnt = vloop.explore_placements(make, ["eof", "reset", "second"], k, on_exec)
+    return {"runs": cnt["runs"], "outcomes": len(outcomes), "nontrivial": stats["judged"], "vios": vios[:30], "sample": None}
+
+
+PGN_OF = {"iso": 59904, "hdg": 127250, "gnss": 129029, "fast2": 130578}
+
+
 # ------------------------------------------------------------------ driver
 def plan(ctx):
     ta, tb, tc = [], [], []
@@ -291,17 +349,23 @@ def plan(ctx):
 
 def _dispatch(t):
     part, args = t
-    return {"A": _task_a, "B": _task_b, "C": _task_c}[part](args)
+    return {"A": _task_a, "B": _task_b, "C": _task_c, "D": _task_d}[part](args)
 
 
 def run(ctx):
     ta, tb, tc = plan(ctx)
-    tasks = [("A", t) for t in ta] + [("B", t) for t in tb] + [("C", t) for t in tc]
-    tasks.sort(key=lambda t: -(n_writes(t[1][0], t[1][1]) if t[0] == "A" else 3))
+    td = []
+    for kind in SEND_KINDS:
+        td.append((kind, "gnss", "fast2", 2))
+        td.append((kind, "fast2", "gnss", 2))
+        if ctx.thorough:
+            td.append((kind, "gnss", "fast2", 3))
+    tasks = [("A", t) for t in ta] + [("B", t) for t in tb] + [("C", t) for t in tc] + [("D", t) for t in td]
+    tasks.sort(key=lambda t: -(n_writes(t[1][0], t[1][1]) if t[0] == "A" else (50 if t[0] == "D" else 3)))
     results = common.pmap(_dispatch, tasks)
     vios, samples = [], []
     runs = nontriv = outcomes = 0
-    parts = {"A": 0, "B": 0, "C": 0}
+    parts = {"A": 0, "B": 0, "C": 0, "D": 0}
     for t, r in zip(tasks, results):
         vios += r["vios"]
         runs += r["runs"]
@@ -315,7 +379,7 @@ def run(ctx):
         "distinct_nontrivial": nontriv, "distinct_outcomes": outcomes,
         "rule": "A: one execution per (client, ordered set of 2-3 concurrent sends incl. triples with one unencodable message, start mode, subset of writes at which the transport "
                 "applies back-pressure); B: an unencodable message sent at every loop boundary of a session; C: a failing write at each "
-                "packet index and a reset at every boundary of a back-pressured send. Non-trivial = at least one write suspended (A), "
+                "packet index and a reset at every boundary of a back-pressured send; D: a back-pressured multi-frame send with EOF / reset / a second send at every pair of boundaries. Non-trivial = at least one write suspended (A), "
                 "send landing while a writer exists (B), all (C)",
         "samples": samples, "executions_per_part": parts,
         "bound_completed": ("all 2^W back-pressure patterns for every ordered pair and triple (W<=10)" if ctx.thorough else
@@ -340,6 +404,9 @@ def replay(ctx, rep):
         vb, v = view_b(sb, ob), view_b(s, o)
         diff = [k for k in v if v[k] != vb[k]]
         res = [("bad_message_disturbs", {"bad": c["bad"], "changed": diff}, f"differs in {diff}")] if diff else []
+    elif c["part"] == "D":
+        r = _task_d((kind, c["first"], c["second"], len(c["deviations"])))
+        return [v for v in r["vios"] if v["case"]["deviations"] == c["deviations"]][:1] or r["vios"][:1]
     elif c["part"] == "C1":
         sess, o = run_c1(kind, c["name"], c["fail_at"], c.get("err", "pipe"))
         res = judge_c(sess, o, "write_error")
